@@ -8,8 +8,8 @@ Definition cnt (s : signal) (l : ledger) : Z :=
 Lemma cnt_app s a b : cnt s (a ++ b) = cnt s a + cnt s b.
 Proof. unfold cnt. rewrite !lget_app. lia. Qed.
 
-Lemma cnt_end_op s n r : s <> Profiles -> cnt s (obs_end_op s n r) = n.
-Proof. intros H. destruct s, r; try congruence; unfold cnt; simpl; lia. Qed.
+Lemma cnt_end_op rc s n r : s <> Profiles -> cnt s (obs_end_op rc s n r) = n.
+Proof. intros H. destruct rc, s, r; try congruence; unfold cnt; simpl; lia. Qed.
 
 Lemma cnt_enq s n : s <> Profiles -> cnt s (obs_enqueue_failed s n) = n.
 Proof. intros H. destruct s; try congruence; unfold cnt; simpl; lia. Qed.
